@@ -10,39 +10,37 @@ namespace Cmio
 
 variable {μ ρ : Type} [MemLike μ]
 
-/-- The closure that `step` ends up running (after following CB/ED/DD/FD and DDCB/FDCB prefixes). -/
-def leafOf (s : St μ) : Instr :=
-  match OpTbl.get .MAIN (mget s.mem s.pc) with
-  | .prefix_ tbl =>
-    (match tbl.get (mget s.mem ((s.pc + 1) % 65536)) with
-     | .prefix2_ tbl2 => tbl2.get (mget s.mem ((s.pc + 3) % 65536))
-     | i => i)
+/-- second level: DDCB/FDCB (`Simulator.prefix2`) -/
+def leafOf2 (s : St μ) (i : Instr) : Instr :=
+  match i with
   | .prefix2_ tbl2 => tbl2.get (mget s.mem ((s.pc + 3) % 65536))
   | i => i
 
+/-- first level: CB/ED/DD/FD (`Simulator.prefix`) -/
+def leafOf1 (s : St μ) (i : Instr) : Instr :=
+  match i with
+  | .prefix_ tbl => leafOf2 s (tbl.get (mget s.mem ((s.pc + 1) % 65536)))
+  | i => leafOf2 s i
+
+/-- The closure that `step` ends up running (after following the prefix tables). -/
+def leafOf (s : St μ) : Instr := leafOf1 s (OpTbl.get .MAIN (mget s.mem s.pc))
+
+theorem exec2_eq (cfg : Cfg) (i : Instr) (s : St μ) : exec2 cfg i s = execLeaf cfg (leafOf2 s i) s := by
+  cases i <;> rfl
+
 theorem step_eq (cfg : Cfg) (s : St μ) : step cfg s = execLeaf cfg (leafOf s) s := by
-  unfold step exec leafOf
-  split
-  · rename_i tbl h; simp only [h]
-    unfold exec2
-    split
-    · rename_i tbl2 h2; simp only [h2]
-    · rename_i i hi; split <;> simp_all
-  · rename_i i hi
-    unfold exec2
-    split
-    · rename_i tbl2 h2; simp only [h2]
-    · rename_i j hj; split <;> simp_all
+  unfold step leafOf
+  generalize OpTbl.get .MAIN (mget s.mem s.pc) = i
+  cases i <;> simp only [exec, leafOf1] <;> exact exec2_eq cfg _ s
+
+theorem leafOf2_wf (s : St μ) (i : Instr) (h : instrWf i = true) : instrWf (leafOf2 s i) = true := by
+  cases i <;> first | exact h | exact get_wf _ _
 
 theorem leafOf_wf (s : St μ) : instrWf (leafOf s) = true := by
   unfold leafOf
-  generalize hm : OpTbl.get .MAIN (mget s.mem s.pc) = m
-  have hmw : instrWf m = true := hm ▸ get_wf _ _
-  cases m <;> simp only [] <;> first | exact hmw | exact get_wf _ _ | skip
-  rename_i tbl
-  generalize hm2 : tbl.get (mget s.mem ((s.pc + 1) % 65536)) = m2
-  have hm2w : instrWf m2 = true := hm2 ▸ get_wf _ _
-  cases m2 <;> simp only [] <;> first | exact hm2w | exact get_wf _ _
+  generalize hm : OpTbl.get .MAIN (mget s.mem s.pc) = i
+  have hw : instrWf i = true := hm ▸ get_wf _ _
+  cases i <;> simp only [leafOf1] <;> first | exact leafOf2_wf s _ hw | exact leafOf2_wf s _ (get_wf _ _)
 
 theorem tmono_step (cfg : Cfg) (s : St μ) : s.t ≤ (step cfg s).t := by
   rw [step_eq]; exact tmono_execLeaf cfg _ (leafOf_wf s) s
